@@ -563,6 +563,7 @@ func optionsToCertificates(p *linkedca.Provisioner) *provisioner.Options {
 		if x := pol.GetX509(); x != nil {
 			if allow := x.GetAllow(); allow != nil {
 				ops.X509.AllowedNames = &policy.X509NameOptions{
+					CommonNames:    allow.CommonNames,
 					DNSDomains:     allow.Dns,
 					IPRanges:       allow.Ips,
 					EmailAddresses: allow.Emails,
@@ -571,12 +572,14 @@ func optionsToCertificates(p *linkedca.Provisioner) *provisioner.Options {
 			}
 			if deny := x.GetDeny(); deny != nil {
 				ops.X509.DeniedNames = &policy.X509NameOptions{
+					CommonNames:    deny.CommonNames,
 					DNSDomains:     deny.Dns,
 					IPRanges:       deny.Ips,
 					EmailAddresses: deny.Emails,
 					URIDomains:     deny.Uris,
 				}
 			}
+			ops.X509.AllowWildcardNames = x.GetAllowWildcardNames()
 		}
 		if ssh := pol.GetSsh(); ssh != nil {
 			if host := ssh.GetHost(); host != nil {
